@@ -481,7 +481,10 @@ latch, under `m.mu`) stops the ticker and closes the channel.  Thread 0 is a rea
 `m.mu` (pending I/O) until it is unblocked, thread 1 the cleaner with a budget of `k` ticks (a tick
 that is ready is taken even if the stop channel is closed too: adversarial `select`), threads
 2… are closers.  `StopVariant.replace` is the rejected variant that installs a fresh channel in
-the field after closing the old one. -/
+the field after closing the old one.  (Since /repo 04aa54c `StartCleanup` hands the goroutine a
+snapshot of ticker and stop channel instead of re-reading the fields; re-reading is the more
+adversarial behaviour, so the theorem for `.keep` still covers the code, and the `.replace`
+witness describes the code before that change.) -/
 
 inductive StopVariant | keep | replace
   deriving DecidableEq, Repr
